@@ -43,7 +43,7 @@ pub struct Srv {
     pub dead: bool,
 }
 
-fn set_rcvbuf(fd: i32, bytes: i32) {
+pub fn set_rcvbuf(fd: i32, bytes: i32) {
     unsafe {
         let v: libc::c_int = bytes;
         let p = &v as *const _ as *const libc::c_void;
